@@ -510,6 +510,12 @@ fn p_blte_enc_header(b: &[u8], _: &Env) -> Result<Val, String> {
     let _ = h.key_id();
     Ok(unit())
 }
+fn p_pi_block2(b: &[u8], _: &Env) -> Result<Val, String> {
+    cascette_formats::patch_index::parser::parse_block2(b).map(|_| unit()).map_err(|e| e.to_string())
+}
+fn p_pi_block8(b: &[u8], _: &Env) -> Result<Val, String> {
+    cascette_formats::patch_index::parser::parse_block8(b).map(|_| unit()).map_err(|e| e.to_string())
+}
 fn p_encoding_blte(b: &[u8], _: &Env) -> Result<Val, String> {
     EncodingFile::parse_blte(b).map(|_| unit()).map_err(|e| e.to_string())
 }
@@ -790,6 +796,8 @@ static FORMATS: &[Fmt] = &[
     Fmt { name: "tvfs_blte", decomp: true, text: false, parse: p_tvfs_blte, rt: None, weight: 2 },
     Fmt { name: "patch_archive", decomp: false, text: false, parse: f_pa::parse, rt: Some(f_pa::rt), weight: 5 },
     Fmt { name: "patch_index", decomp: false, text: false, parse: f_pi::parse, rt: Some(f_pi::rt), weight: 5 },
+    Fmt { name: "patch_index_block2", decomp: false, text: false, parse: p_pi_block2, rt: None, weight: 2 },
+    Fmt { name: "patch_index_block8", decomp: false, text: false, parse: p_pi_block8, rt: None, weight: 2 },
     Fmt { name: "zbsdiff", decomp: false, text: false, parse: f_zbs::parse, rt: Some(f_zbs::rt), weight: 4 },
     Fmt { name: "zbsdiff_apply", decomp: true, text: false, parse: p_zbs_apply, rt: None, weight: 5 },
     Fmt { name: "build_config", decomp: false, text: true, parse: f_buildcfg::parse, rt: Some(f_buildcfg::rt), weight: 3 },
@@ -1008,6 +1016,16 @@ fn build_pa_seed(ext: bool) -> Result<Vec<u8>, String> {
     b.sort_entries();
     b.build().map_err(es)
 }
+/// patch archive whose entries need several blocks (block_size_bits 12: 4 KiB blocks)
+fn build_pa_multi_seed(n: u64, bits: u8) -> Result<Vec<u8>, String> {
+    use cascette_formats::patch_archive::PatchArchiveBuilder;
+    let mut b = PatchArchiveBuilder::new().block_size_bits(bits);
+    for i in 0..n {
+        b.add_file_entry(k16(0xC6, i), 5000 + i, vec![(k16(0xE6, i), 3000 + i, k16(0xF6, i), 70 + i as u32, 1)]);
+    }
+    b.sort_entries();
+    b.build().map_err(es)
+}
 fn build_pi_seed() -> Result<Vec<u8>, String> {
     use cascette_formats::patch_index::{PatchIndexBuilder, PatchIndexEntry};
     let mut b = PatchIndexBuilder::new().key_size(16);
@@ -1132,7 +1150,12 @@ fn espec_seeds() -> Vec<Seed> {
             }
         }
     }
-    v.into_iter().enumerate().map(|(i, s)| Seed { name: format!("espec/{i}"), bytes: s.into_bytes(), real: i >= 11 }).collect()
+    let n_real_end = v.len();
+    // explicit zero sizes (with and without unit, with a count) next to a variable `*` chunk; counted variable chunks
+    for s in ["b:{0*5=z,*=n}", "b:{256K=n,0K*3=z:9,*=z}", "b:{0*2=n,0*3=z}", "b:{0M=n,*=z}", "b:{0=n,1=z,*=n}", "b:{*5=z}", "b:{0M*7=n,16K*3=z}", "b:{0K=z}", "b:0*2=n"] {
+        v.push(s.to_string());
+    }
+    v.into_iter().enumerate().map(|(i, s)| Seed { name: format!("espec/{i}"), bytes: s.into_bytes(), real: i >= 11 && i < n_real_end }).collect()
 }
 
 /// name with the bytes [off, off+len(ins)) of `base` replaced by `ins` (kept at the length of `base` + delta)
@@ -1387,10 +1410,41 @@ fn all_seeds(tmp: &Path) -> Vec<Vec<Seed>> {
             "patch_archive" => {
                 v.extend(bseed("pa4", guarded(|| build_pa_seed(false)).unwrap_or_else(Err)));
                 v.extend(bseed("pa4_ext", guarded(|| build_pa_seed(true)).unwrap_or_else(Err)));
-                v.extend(fixture_files("patch_archive", &|n| n.ends_with(".bin")));
+                v.extend(bseed("pa300_b12", guarded(|| build_pa_multi_seed(300, 12)).unwrap_or_else(Err)));
+                let real = fixture_files("patch_archive", &|n| n.ends_with(".bin"));
+                // real manifests declared with 4 KiB blocks (header byte 6): parsed as they are, regrouped into several blocks by the writer
+                for s in &real {
+                    let mut b = s.bytes.clone();
+                    if b.len() > 6 {
+                        b[6] = 12;
+                        v.push(Seed { name: format!("{}#bits12", s.name), bytes: b, real: false });
+                    }
+                }
+                v.extend(real);
+            }
+            "patch_index_block2" | "patch_index_block8" => {
+                let ty = if f.name.ends_with('2') { 2 } else { 8 };
+                let whole = guarded(build_pi_seed).unwrap_or_else(Err);
+                v.extend(bseed(&format!("pi4_block{ty}"), whole.and_then(|w| pi_block_body(&w, ty).and_then(|(o, n)| w.get(o..o + n).map(<[u8]>::to_vec)).ok_or_else(|| "no such block".to_string()))));
+                for s in fixture_files("patch_index", &|n| n.ends_with(".bin")).into_iter().take(1) {
+                    if let Some((o, n)) = pi_block_body(&s.bytes, ty)
+                        && let Some(body) = s.bytes.get(o..o + n)
+                    {
+                        v.push(Seed { name: format!("{}#block{ty}", s.name), bytes: body.to_vec(), real: false });
+                    }
+                }
             }
             "patch_index" => {
                 v.extend(bseed("pi4", guarded(build_pi_seed).unwrap_or_else(Err)));
+                // the same file with the type-2 block relabelled as a second configuration block: the type-8 block is the one that is parsed
+                v.extend(bseed(
+                    "pi4_b8only",
+                    guarded(build_pi_seed).unwrap_or_else(Err).and_then(|mut w| {
+                        let at = pi_blk1_type(&w).filter(|&a| rd_le(&w, a, 4) == Some(2)).ok_or_else(|| "second block is not type 2".to_string())?;
+                        w[at] = 1;
+                        Ok(w)
+                    }),
+                ));
                 v.extend(fixture_files("patch_index", &|n| n.ends_with(".bin")));
             }
             "zbsdiff" | "zbsdiff_apply" => {
@@ -1519,6 +1573,45 @@ fn pi_blk0_entries(b: &[u8]) -> Option<usize> {
     // entry count of the first block's body (u32 LE at the start of the block data = header_size)
     rd_le(b, 0, 4).map(|h| h as usize)
 }
+/// body of the first block of type `ty` in a patch index: (offset, size)
+fn pi_block_body(b: &[u8], ty: u32) -> Option<(usize, usize)> {
+    let table = pi_blocks(b)?;
+    let count = rd_le(b, table, 4)? as usize;
+    let mut off = rd_le(b, 0, 4)? as usize;
+    for i in 0..count.min(64) {
+        let d = table + 4 + 8 * i;
+        let (t, sz) = (rd_le(b, d, 4)? as u32, rd_le(b, d + 4, 4)? as usize);
+        if t == ty {
+            return Some((off, sz));
+        }
+        off = off.checked_add(sz)?;
+    }
+    None
+}
+fn pi_b8(b: &[u8], at: usize) -> Option<usize> {
+    pi_block_body(b, 8).map(|(o, _)| o + at)
+}
+fn pi_b8_version(b: &[u8]) -> Option<usize> {
+    pi_b8(b, 0)
+}
+fn pi_b8_key_size(b: &[u8]) -> Option<usize> {
+    pi_b8(b, 1)
+}
+fn pi_b8_data_offset(b: &[u8]) -> Option<usize> {
+    pi_b8(b, 2)
+}
+fn pi_b8_entry_count(b: &[u8]) -> Option<usize> {
+    pi_b8(b, 4)
+}
+fn pi_b2_entry_count(b: &[u8]) -> Option<usize> {
+    pi_block_body(b, 2).map(|(o, _)| o)
+}
+fn pi_b2_key_size(b: &[u8]) -> Option<usize> {
+    pi_block_body(b, 2).map(|(o, _)| o + 4)
+}
+fn pi_blk1_type(b: &[u8]) -> Option<usize> {
+    pi_blocks(b).map(|p| p + 12)
+}
 fn ench_iv(b: &[u8]) -> Option<usize> {
     Some(1 + *b.first()? as usize)
 }
@@ -1612,7 +1705,17 @@ fn layout(fmt: &str) -> Vec<Fld> {
             Fld { name: "blk0_type", loc: Loc::Dyn(pi_blk0_type), w: 4, be: false },
             Fld { name: "blk0_size", loc: Loc::Dyn(pi_blk0_size), w: 4, be: false },
             Fld { name: "blk0_entries", loc: Loc::Dyn(pi_blk0_entries), w: 4, be: false },
+            Fld { name: "blk1_type", loc: Loc::Dyn(pi_blk1_type), w: 4, be: false },
+            // the per-block headers of the entry blocks (type 2 and type 8)
+            Fld { name: "b2_entry_count", loc: Loc::Dyn(pi_b2_entry_count), w: 4, be: false },
+            Fld { name: "b2_key_size", loc: Loc::Dyn(pi_b2_key_size), w: 1, be: false },
+            Fld { name: "b8_version", loc: Loc::Dyn(pi_b8_version), w: 1, be: false },
+            Fld { name: "b8_key_size", loc: Loc::Dyn(pi_b8_key_size), w: 1, be: false },
+            Fld { name: "b8_data_offset", loc: Loc::Dyn(pi_b8_data_offset), w: 2, be: false },
+            Fld { name: "b8_entry_count", loc: Loc::Dyn(pi_b8_entry_count), w: 4, be: false },
         ],
+        "patch_index_block2" => vec![fl("entry_count", 0, 4), fl("key_size", 4, 1)],
+        "patch_index_block8" => vec![fl("version", 0, 1), fl("key_size", 1, 1), fl("data_offset", 2, 2), fl("entry_count", 4, 4), fl("unknown", 8, 4)],
         "zbsdiff" | "zbsdiff_apply" => vec![fl("signature", 0, 8), fl("control_size", 8, 8), fl("diff_size", 16, 8), fl("output_size", 24, 8)],
         "local_idx" => vec![
             fl("hdr_block_size", 0, 4),
@@ -1797,7 +1900,7 @@ fn reseal(fmt: &str, b: &mut Vec<u8>) -> bool {
 // seeded mutation generator
 // ------------------------------------------------------------------------------------------------
 const INTERESTING: &[u64] = &[0, 1, 2, 7, 8, 9, 15, 16, 17, 0x7F, 0x80, 0xFF, 0x100, 0x3FF, 0x400, 0x1000, 0x7FFF, 0x8000, 0xFFFF, 0x1_0000, 0xFF_FFFF, 0x100_0000, 0x7FFF_FFFF, 0x8000_0000, 0xFFFF_FFFF];
-const TEXT_BITS: &[&str] = &["|", "\n", "\r\n", " = ", "=", ":", "!", "{", "}", ",", "*", "\u{e9}", "\u{20ac}", "\u{0}", "##", "# ", " ", "\t", "\u{a0}", "\"", "[", "]", "e:{", "b:{", "z:{", "K", "M", "-", "0x", "9999999999999999999999", "STRING:0", "HEX:16", "DEC:4", "seqn", "key-", "patch-entry", "Content-Type:", "multipart/mixed", "boundary=", "--", "Checksum: "];
+const TEXT_BITS: &[&str] = &["|", "\n", "\r\n", " = ", "=", ":", "!", "{", "}", ",", "*", "\u{e9}", "\u{20ac}", "\u{0}", "##", "# ", " ", "\t", "\u{a0}", "\"", "[", "]", "e:{", "b:{", "z:{", "K", "M", "0*5=z,", "0K*3=n,", "0M=z,", "*=n", "*5=z,", "0*", "0K", "0M", ",*=z}", "-", "0x", "9999999999999999999999", "STRING:0", "HEX:16", "DEC:4", "seqn", "key-", "patch-entry", "Content-Type:", "multipart/mixed", "boundary=", "--", "Checksum: "];
 
 fn pick_offset(rng: &mut Rng, len: usize) -> usize {
     if len == 0 {
@@ -1855,7 +1958,7 @@ fn mutate_once(rng: &mut Rng, b: &mut Vec<u8>, fmt: &Fmt, other: &[u8], how: &mu
             } else {
                 let f = rng.pick(&lay);
                 if let Some(cur) = fld_read(f, b) {
-                    let tok = *rng.pick(&["zero", "one", "max", "maxm1", "half", "halfm1", "over", "under", "len", "big"]);
+                    let tok = *rng.pick(&["zero", "one", "max", "maxm1", "half", "halfm1", "over", "under", "len", "big", "n:12", "n:13", "n:24"]);
                     if let Some(v) = class_value(tok, f.w, cur, len) {
                         fld_write(f, b, v);
                         how.push_str(&format!("fld:{}={tok},", f.name));
@@ -2063,6 +2166,7 @@ struct AEntry {
     a: u64,
     t: u64,
 }
+const PA_FILLERS: u64 = 300;
 const SIZE_CLASS: [u64; 4] = [0, 1, 4113, 0xFFFF_FFFF];
 fn c_size(s: u64) -> u64 {
     SIZE_CLASS[(s as usize).min(3)]
@@ -2233,6 +2337,13 @@ fn bp_build(fmt: &str, ver: u64, es: &[AEntry]) -> Result<Vec<u8>, String> {
         "patch_archive" => {
             use cascette_formats::patch_archive::{PatchArchiveBuilder, PatchArchiveEncodingInfo};
             let mut b = PatchArchiveBuilder::new();
+            if ver == 2 {
+                // several blocks: 4 KiB blocks and 300 filler entries around the entries of the program
+                b = b.block_size_bits(12);
+                for i in 0..PA_FILLERS {
+                    b.add_file_entry(k16(0x70, i), 9, vec![(k16(0x71, i), 8, k16(0x72, i), 7, 1)]);
+                }
+            }
             if ver == 1 {
                 b = b.encoding_info(PatchArchiveEncodingInfo { encoding_ckey: k16(0x63, 1), encoding_ekey: k16(0x64, 1), decoded_size: 10, encoded_size: 9, espec: "z".into() });
             }
@@ -2299,6 +2410,25 @@ fn bp_build(fmt: &str, ver: u64, es: &[AEntry]) -> Result<Vec<u8>, String> {
                 }
                 Ok(c.build())
             }
+        }
+        "espec" => {
+            // a block table built in code: one chunk per entry (level = key id, size class incl. an explicit 0,
+            // counted or not, zlib variant), ver 1: plus the final variable chunk
+            use cascette_formats::espec::{BlockChunk, BlockSizeSpec, ZLibVariant};
+            let mut chunks: Vec<BlockChunk> = es
+                .iter()
+                .map(|e| BlockChunk {
+                    size_spec: Some(BlockSizeSpec { size: c_size(e.s), count: if e.a == 1 { Some(5) } else { None } }),
+                    spec: ESpec::ZLib { level: Some(e.k as u8), variant: if e.t & 1 != 0 { Some(ZLibVariant::MPQ) } else { None }, window_bits: None },
+                })
+                .collect();
+            if ver == 1 {
+                chunks.push(BlockChunk { size_spec: None, spec: ESpec::None });
+            }
+            if chunks.is_empty() {
+                return Err("an empty block table is not a value of the format".into());
+            }
+            <ESpec as CascFormat>::build(&ESpec::BlockTable { chunks }).map_err(es_)
         }
         "keyring_config" => {
             let mut c = KeyringConfig::new();
@@ -2465,7 +2595,12 @@ fn bp_extract(fmt: &str, ver: u64, bytes: &[u8]) -> Result<Vec<Value>, String> {
             if ver == 1 && m.encoding_info.as_ref().is_none_or(|i| i.espec != "z" || i.decoded_size != 10 || i.encoded_size != 9 || i.encoding_ckey != k16(0x63, 1) || i.encoding_ekey != k16(0x64, 1)) {
                 out.push(ae(-1, -1, -1, -1));
             }
+            let mut fillers = 0u64;
             for e in m.all_file_entries() {
+                if ver == 2 && (0..PA_FILLERS).any(|i| e.target_ckey == k16(0x70, i)) {
+                    fillers += 1;
+                    continue;
+                }
                 let k = a_key16(&e.target_ckey);
                 let ku = k.max(0) as u64;
                 let (s, a) = if e.decoded_size >= (1u64 << 32) { (a_size(e.decoded_size - (1u64 << 32)), 1) } else { (a_size(e.decoded_size), 0) };
@@ -2476,6 +2611,9 @@ fn bp_extract(fmt: &str, ver: u64, bytes: &[u8]) -> Result<Vec<Value>, String> {
                     _ => -1,
                 };
                 out.push(ae(if p0 { k } else { -1 }, s, a, t));
+            }
+            if ver == 2 && fillers != PA_FILLERS {
+                out.push(ae(-1, -1, -1, fillers as i64));
             }
         }
         "patch_index" => {
@@ -2546,6 +2684,34 @@ fn bp_extract(fmt: &str, ver: u64, bytes: &[u8]) -> Result<Vec<Value>, String> {
                         out.push(ae(k as i64, s as i64, a, t));
                     }
                 }
+            }
+        }
+        "espec" => {
+            use cascette_formats::espec::ZLibVariant;
+            let v = <ESpec as CascFormat>::parse(bytes).map_err(es_)?;
+            let ESpec::BlockTable { chunks } = v else { return Ok(vec![ae(-1, -1, -1, -1)]) };
+            let n = chunks.len();
+            for (i, c) in chunks.iter().enumerate() {
+                match (&c.size_spec, &c.spec) {
+                    (None, ESpec::None) if ver == 1 && i + 1 == n => {}
+                    (Some(ss), ESpec::ZLib { level: Some(l), variant, window_bits: None }) => {
+                        let a = match ss.count {
+                            None => 0,
+                            Some(5) => 1,
+                            _ => -1,
+                        };
+                        let t = match variant {
+                            None => 0,
+                            Some(ZLibVariant::MPQ) => 1,
+                            _ => -1,
+                        };
+                        out.push(ae(i64::from(*l), a_size(ss.size), a, t));
+                    }
+                    _ => out.push(ae(-1, -1, -1, -1)),
+                }
+            }
+            if ver == 1 && !chunks.last().is_some_and(|c| c.size_spec.is_none()) {
+                out.push(ae(-1, -1, -1, -2));
             }
         }
         "keyring_config" => {
@@ -2648,10 +2814,13 @@ impl Plan {
                 if !enabled.contains(&fi) {
                     continue;
                 }
-                // patch into the first (small, builder-made) seed and into the first real fixture
-                let mut used = vec![0usize];
+                // patch into the first three builder-made seeds and into the first real fixture
+                let mut used: Vec<usize> = (0..seeds[fi].len()).filter(|&k| !seeds[fi][k].real && !seeds[fi][k].name.starts_with("generated/")).take(3).collect();
                 if let Some(r) = seeds[fi].iter().position(|s| s.real) {
                     used.push(r);
+                }
+                if used.is_empty() {
+                    used.push(0);
                 }
                 if name == "dirnames" || name == "zbsdiff_apply" && v["fmt"].as_str() == Some("zbsdiff_ctl") {
                     used = vec![0];
@@ -2661,8 +2830,6 @@ impl Plan {
                     if used.is_empty() {
                         used = vec![0];
                     }
-                } else if !seeds[fi].iter().any(|s| s.real) {
-                    used = (0..seeds[fi].len().min(3)).collect();
                 }
                 // an explicit seed selector of the vector (e.g. the extended-header variants)
                 if let Some(want) = v["seed"].as_str() {
